@@ -34,8 +34,15 @@ import (
 )
 
 type calleeInfo struct {
-	obj      *types.Func
-	decl     *ast.FuncDecl
+	obj      *types.Func   // nil for a local closure
+	decl     *ast.FuncDecl // nil for a local closure
+	v        *types.Var    // the local variable a closure is bound to
+	lit      *ast.FuncLit
+	node     ast.Node // the declaration (FuncDecl, or the statement binding the closure)
+	name     string
+	sig      *types.Signature
+	ftype    *ast.FuncType
+	body     *ast.BlockStmt
 	file     *ast.File
 	src      []byte
 	exprBody ast.Expr // single `return expr`
@@ -96,14 +103,11 @@ func inlineNewHelpers(p *Program, round int) (map[string][]byte, int, []string) 
 				fmt.Fprintln(os.Stderr, "INLINE candidate", o.FullName())
 			}
 		}
-		if len(cands) == 0 {
-			continue
-		}
 		for id, obj := range pk.TypesInfo.Uses {
 			if fobj, ok := obj.(*types.Func); ok && cands[fobj] != nil {
 				ci := cands[fobj]
 				// references from inside the function itself do not keep it alive
-				if !(id.Pos() >= ci.decl.Pos() && id.End() <= ci.decl.End()) {
+				if !(id.Pos() >= ci.node.Pos() && id.End() <= ci.node.End()) {
 					ci.refs++
 				}
 			}
@@ -114,7 +118,7 @@ func inlineNewHelpers(p *Program, round int) (map[string][]byte, int, []string) 
 			if src == nil {
 				continue
 			}
-			il := &inliner{p: p, pk: pk, file: f, src: src, cands: cands, id: round*100000 + fi*1000}
+			il := &inliner{p: p, pk: pk, file: f, src: src, cands: cands, lits: closureCandidates(pk, f, src), id: round*100000 + fi*1000}
 			il.run()
 			ils[f] = il
 		}
@@ -123,6 +127,16 @@ func inlineNewHelpers(p *Program, round int) (map[string][]byte, int, []string) 
 		for _, ci := range cands {
 			if ci.refs == 0 && !ci.obj.Exported() && ils[ci.file] != nil {
 				ils[ci.file].dropDecl(ci)
+			}
+		}
+		// a closure whose every call was rewritten in this round is dropped at once (left in place it would be an unused
+		// variable, and its captures would still force the captured variables into heap cells), unless the body of another
+		// candidate calls it: that body has just been copied to new places, which are rewritten in the next round
+		for _, il := range ils {
+			for _, ci := range il.lits {
+				if ci.refs == 0 || (ci.inlined == ci.refs && !il.usedByOtherCandidate(ci)) {
+					il.dropDecl(ci)
+				}
 			}
 		}
 		for _, f := range pk.Syntax {
@@ -149,11 +163,21 @@ func eligibleCallee(pk *packages.Package, file *ast.File, fd *ast.FuncDecl, obj 
 		return nil
 	}
 	sig := obj.Type().(*types.Signature)
+	ci := eligibleBody(pk, fd.Body, sig, obj)
+	if ci == nil {
+		return nil
+	}
+	ci.obj, ci.decl, ci.node, ci.name, ci.ftype, ci.file, ci.src = obj, fd, fd, obj.Name(), fd.Type, file, src
+	return ci
+}
+
+// eligibleBody: the body can be placed at a call site by the rewrite of expand/substitute.
+func eligibleBody(pk *packages.Package, body *ast.BlockStmt, sig *types.Signature, self types.Object) *calleeInfo {
 	if sig.TypeParams() != nil || sig.RecvTypeParams() != nil || sig.Variadic() {
 		return nil
 	}
 	ok := true
-	ast.Inspect(fd.Body, func(n ast.Node) bool {
+	ast.Inspect(body, func(n ast.Node) bool {
 		switch x := n.(type) {
 		case *ast.DeferStmt, *ast.LabeledStmt:
 			ok = false
@@ -165,8 +189,12 @@ func eligibleCallee(pk *packages.Package, file *ast.File, fd *ast.FuncDecl, obj 
 			if id, isID := x.Fun.(*ast.Ident); isID && id.Name == "recover" {
 				ok = false
 			}
-			if f := typeutil.StaticCallee(pk.TypesInfo, x); f == obj {
+			if f := typeutil.StaticCallee(pk.TypesInfo, x); f != nil && types.Object(f) == self {
 				ok = false // directly recursive
+			}
+		case *ast.Ident:
+			if o := pk.TypesInfo.Uses[x]; o != nil && o == self {
+				ok = false // refers to itself
 			}
 		}
 		return ok
@@ -175,13 +203,106 @@ func eligibleCallee(pk *packages.Package, file *ast.File, fd *ast.FuncDecl, obj 
 		return nil
 	}
 	// parameters must be named (or blank) so that they can be bound
-	ci := &calleeInfo{obj: obj, decl: fd, file: file, src: src}
-	if len(fd.Body.List) == 1 && sig.Results().Len() == 1 {
-		if r, isRet := fd.Body.List[0].(*ast.ReturnStmt); isRet && len(r.Results) == 1 {
+	ci := &calleeInfo{sig: sig, body: body}
+	if len(body.List) == 1 && sig.Results().Len() == 1 {
+		if r, isRet := body.List[0].(*ast.ReturnStmt); isRet && len(r.Results) == 1 {
 			ci.exprBody = r.Results[0]
 		}
 	}
 	return ci
+}
+
+// closureCandidates: `name := func(...) ... { ... }` (or `var name = func...`) in a statement list, where the variable is
+// never assigned again and every use of it is a direct call (not under go/defer). Such a closure captures its free
+// variables by reference, so placing its body at the call is the same computation provided the captured names mean the
+// same variables there (checked per call site by shadowed).
+func closureCandidates(pk *packages.Package, file *ast.File, src []byte) map[*types.Var]*calleeInfo {
+	out := map[*types.Var]*calleeInfo{}
+	if src == nil {
+		return out
+	}
+	info := pk.TypesInfo
+	parent := map[ast.Node]ast.Node{}
+	var stack []ast.Node
+	ast.Inspect(file, func(n ast.Node) bool {
+		if n == nil {
+			stack = stack[:len(stack)-1]
+			return true
+		}
+		if len(stack) > 0 {
+			parent[n] = stack[len(stack)-1]
+		}
+		stack = append(stack, n)
+		return true
+	})
+	inList := func(st ast.Node) bool {
+		switch parent[st].(type) {
+		case *ast.BlockStmt, *ast.CaseClause, *ast.CommClause:
+			return true
+		}
+		return false
+	}
+	ast.Inspect(file, func(n ast.Node) bool {
+		var id *ast.Ident
+		var lit *ast.FuncLit
+		var node ast.Node
+		switch x := n.(type) {
+		case *ast.AssignStmt:
+			if x.Tok == token.DEFINE && len(x.Lhs) == 1 && len(x.Rhs) == 1 {
+				id, _ = x.Lhs[0].(*ast.Ident)
+				lit, _ = x.Rhs[0].(*ast.FuncLit)
+				node = x
+			}
+		case *ast.DeclStmt:
+			if gd, ok := x.Decl.(*ast.GenDecl); ok && gd.Tok == token.VAR && len(gd.Specs) == 1 {
+				if vs, ok := gd.Specs[0].(*ast.ValueSpec); ok && len(vs.Names) == 1 && len(vs.Values) == 1 && vs.Type == nil {
+					id = vs.Names[0]
+					lit, _ = vs.Values[0].(*ast.FuncLit)
+					node = x
+				}
+			}
+		}
+		if id == nil || lit == nil || id.Name == "_" || !inList(node) {
+			return true
+		}
+		v, _ := info.Defs[id].(*types.Var)
+		if v == nil {
+			return true
+		}
+		sig, _ := v.Type().(*types.Signature)
+		if sig == nil {
+			return true
+		}
+		ci := eligibleBody(pk, lit.Body, sig, v)
+		if ci == nil {
+			return true
+		}
+		ci.v, ci.lit, ci.node, ci.name, ci.ftype, ci.file, ci.src = v, lit, node, id.Name, lit.Type, file, src
+		out[v] = ci
+		return true
+	})
+	// every use is the function operand of a plain call
+	for id, obj := range info.Uses {
+		v, ok := obj.(*types.Var)
+		if !ok || out[v] == nil {
+			continue
+		}
+		if id.Pos() < file.Pos() || id.Pos() > file.End() {
+			continue
+		}
+		call, isCall := parent[id].(*ast.CallExpr)
+		if !isCall || call.Fun != ast.Expr(id) {
+			delete(out, v)
+			continue
+		}
+		switch parent[call].(type) {
+		case *ast.GoStmt, *ast.DeferStmt:
+			delete(out, v)
+			continue
+		}
+		out[v].refs++
+	}
+	return out
 }
 
 type inliner struct {
@@ -190,6 +311,7 @@ type inliner struct {
 	file   *ast.File
 	src    []byte
 	cands  map[*types.Func]*calleeInfo
+	lits   map[*types.Var]*calleeInfo
 	edits  []textEdit
 	notes  []string
 	id     int
@@ -226,20 +348,54 @@ func (il *inliner) run() {
 	var calls []*ast.CallExpr
 	ast.Inspect(il.file, func(n ast.Node) bool {
 		if c, ok := n.(*ast.CallExpr); ok {
-			if f := typeutil.StaticCallee(il.pk.TypesInfo, c); f != nil && il.cands[f] != nil {
+			if il.calleeOf(c) != nil {
 				calls = append(calls, c)
 			}
 		}
 		return true
 	})
 	for _, c := range calls {
-		ci := il.cands[typeutil.StaticCallee(il.pk.TypesInfo, c)]
+		ci := il.calleeOf(c)
 		// not inside the callee itself
-		if c.Pos() >= ci.decl.Pos() && c.End() <= ci.decl.End() {
+		if c.Pos() >= ci.node.Pos() && c.End() <= ci.node.End() {
 			continue
 		}
 		il.tryInline(c, ci)
 	}
+}
+
+func (il *inliner) usedByOtherCandidate(ci *calleeInfo) bool {
+	used := false
+	check := func(o *calleeInfo) {
+		if o == ci || used {
+			return
+		}
+		ast.Inspect(o.body, func(n ast.Node) bool {
+			if id, ok := n.(*ast.Ident); ok && il.pk.TypesInfo.Uses[id] == types.Object(ci.v) {
+				used = true
+			}
+			return !used
+		})
+	}
+	for _, o := range il.lits {
+		check(o)
+	}
+	for _, o := range il.cands {
+		check(o)
+	}
+	return used
+}
+
+func (il *inliner) calleeOf(c *ast.CallExpr) *calleeInfo {
+	if f := typeutil.StaticCallee(il.pk.TypesInfo, c); f != nil && il.cands[f] != nil {
+		return il.cands[f]
+	}
+	if id, ok := c.Fun.(*ast.Ident); ok {
+		if v, ok := il.pk.TypesInfo.Uses[id].(*types.Var); ok && il.lits[v] != nil {
+			return il.lits[v]
+		}
+	}
+	return nil
 }
 
 // inList: the statement is an element of a statement list (so it can be replaced by several statements).
@@ -299,25 +455,22 @@ func (il *inliner) tryInline(call *ast.CallExpr, ci *calleeInfo) {
 	}
 	// ---- expression forms ----
 	st := il.enclosingStmt(call)
-	if st == nil {
-		return
-	}
 	if ci.exprBody != nil {
 		if sub, ok := il.substitute(call, ci); ok {
 			s, e := il.off(call.Pos()), il.off(call.End())
 			if !il.overlaps(s, e) && !il.overlapsStmtEdit(call) {
 				il.edits = append(il.edits, textEdit{s, e, sub})
 				ci.inlined++
-				il.notes = append(il.notes, fmt.Sprintf("%s: call of new helper %s substituted by its expression", il.p.Pos(call.Pos()), ci.obj.Name()))
+				il.notes = append(il.notes, fmt.Sprintf("%s: call of new helper %s substituted by its expression", il.p.Pos(call.Pos()), ci.name))
 			}
 			return
 		}
 	}
 	// hoist
-	if !il.hoistable(st, call) {
+	if st == nil || !il.hoistable(st, call) {
 		return
 	}
-	sig := ci.obj.Type().(*types.Signature)
+	sig := ci.sig
 	if sig.Results().Len() != 1 {
 		return
 	}
@@ -343,9 +496,9 @@ func (il *inliner) tryInline(call *ast.CallExpr, ci *calleeInfo) {
 
 // dropDecl blanks the declaration of a helper that has no remaining use (line count preserved).
 func (il *inliner) dropDecl(ci *calleeInfo) {
-	var n ast.Node = ci.decl
+	var n ast.Node = ci.node
 	s, e := il.off(n.Pos()), il.off(n.End())
-	if ci.decl.Doc != nil {
+	if ci.decl != nil && ci.decl.Doc != nil {
 		s = il.off(ci.decl.Doc.Pos())
 	}
 	// edits inside the dropped declaration are moot
@@ -361,7 +514,7 @@ func (il *inliner) dropDecl(ci *calleeInfo) {
 	}
 	nl := bytes.Count(il.src[s:e], []byte("\n"))
 	il.edits = append(il.edits, textEdit{s, e, strings.Repeat("\n", nl)})
-	il.notes = append(il.notes, fmt.Sprintf("%s: new helper %s has no remaining use after inlining; declaration dropped from the analysed program", il.p.Pos(ci.decl.Pos()), ci.obj.Name()))
+	il.notes = append(il.notes, fmt.Sprintf("%s: new helper %s has no remaining use after inlining; declaration dropped from the analysed program", il.p.Pos(ci.node.Pos()), ci.name))
 }
 
 func (il *inliner) isElse(ifs *ast.IfStmt) bool {
@@ -384,7 +537,7 @@ func (il *inliner) addEdit(n ast.Node, text string, ci *calleeInfo) {
 	nl := bytes.Count(il.src[s:e], []byte("\n"))
 	il.edits = append(il.edits, textEdit{s, e, text + strings.Repeat("\n", nl)})
 	ci.inlined++
-	il.notes = append(il.notes, fmt.Sprintf("%s: call of new helper %s inlined", il.p.Pos(n.Pos()), ci.obj.Name()))
+	il.notes = append(il.notes, fmt.Sprintf("%s: call of new helper %s inlined", il.p.Pos(n.Pos()), ci.name))
 }
 
 // enclosingStmt: the nearest enclosing statement that sits in a statement list (or is an else-if), without
@@ -554,7 +707,7 @@ func (il *inliner) shadowed(call *ast.CallExpr, ci *calleeInfo) bool {
 		return true
 	}
 	bad := false
-	ast.Inspect(ci.decl.Body, func(n ast.Node) bool {
+	ast.Inspect(ci.body, func(n ast.Node) bool {
 		id, ok := n.(*ast.Ident)
 		if !ok || bad {
 			return !bad
@@ -563,7 +716,18 @@ func (il *inliner) shadowed(call *ast.CallExpr, ci *calleeInfo) bool {
 		if obj == nil {
 			return true
 		}
-		if obj.Parent() == il.pk.Types.Scope() || obj.Parent() == types.Universe || isFileScope(obj) {
+		outer := false
+		if ci.lit != nil {
+			// a closure's free variables (anything declared outside the literal) must be the same variables at the call
+			if obj.Parent() != nil && !(obj.Pos() >= ci.lit.Pos() && obj.Pos() <= ci.lit.End()) {
+				outer = true
+			}
+			if _, isLbl := obj.(*types.Label); isLbl {
+				bad = true
+				return false
+			}
+		}
+		if outer || obj.Parent() == il.pk.Types.Scope() || obj.Parent() == types.Universe || isFileScope(obj) {
 			_, found := scope.LookupParent(id.Name, call.Pos())
 			if found != obj {
 				// imported package names live in file scopes: the caller's file must import it under the same name
@@ -595,7 +759,7 @@ type binding struct {
 }
 
 func (il *inliner) bindings(call *ast.CallExpr, ci *calleeInfo, k string) ([]binding, bool) {
-	sig := ci.obj.Type().(*types.Signature)
+	sig := ci.sig
 	info := il.pk.TypesInfo
 	var bs []binding
 	if sig.Recv() != nil {
@@ -618,7 +782,7 @@ func (il *inliner) bindings(call *ast.CallExpr, ci *calleeInfo, k string) ([]bin
 			arg = "*(" + arg + ")"
 		}
 		var robj *types.Var
-		if ci.decl.Recv != nil && len(ci.decl.Recv.List) == 1 && len(ci.decl.Recv.List[0].Names) == 1 {
+		if ci.decl != nil && ci.decl.Recv != nil && len(ci.decl.Recv.List) == 1 && len(ci.decl.Recv.List[0].Names) == 1 {
 			robj, _ = il.pk.TypesInfo.Defs[ci.decl.Recv.List[0].Names[0]].(*types.Var)
 		}
 		bs = append(bs, binding{obj: robj, name: k + "_recv", typ: sig.Recv().Type(), arg: arg, expr: sel.X})
@@ -627,7 +791,7 @@ func (il *inliner) bindings(call *ast.CallExpr, ci *calleeInfo, k string) ([]bin
 		return nil, false // f(g()) multi-value forwarding
 	}
 	i := 0
-	for _, fld := range ci.decl.Type.Params.List {
+	for _, fld := range ci.ftype.Params.List {
 		if len(fld.Names) == 0 {
 			bs = append(bs, binding{obj: nil, name: fmt.Sprintf("%s_p%d", k, i), typ: sig.Params().At(i).Type(), arg: il.text(call.Args[i]), expr: call.Args[i]})
 			i++
@@ -645,8 +809,8 @@ func (il *inliner) bindings(call *ast.CallExpr, ci *calleeInfo, k string) ([]bin
 // bodyText renders the callee's body with parameters renamed and returns rewritten.
 func (il *inliner) bodyText(ci *calleeInfo, rename map[types.Object]string, results []string, label string) (string, int) {
 	fset := il.p.Fset
-	base := fset.Position(ci.decl.Body.Lbrace).Offset + 1
-	end := fset.Position(ci.decl.Body.Rbrace).Offset
+	base := fset.Position(ci.body.Lbrace).Offset + 1
+	end := fset.Position(ci.body.Rbrace).Offset
 	var edits []textEdit
 	nret := 0
 	var walk func(n ast.Node, inLit bool)
@@ -683,7 +847,7 @@ func (il *inliner) bodyText(ci *calleeInfo, rename map[types.Object]string, resu
 			return true
 		})
 	}
-	walk(ci.decl.Body, false)
+	walk(ci.body, false)
 	sort.Slice(edits, func(i, j int) bool {
 		if edits[i].start != edits[j].start {
 			return edits[i].start > edits[j].start
@@ -706,7 +870,7 @@ func (il *inliner) expand(call *ast.CallExpr, ci *calleeInfo, k string, lhs []as
 	if il.shadowed(call, ci) {
 		return "", false
 	}
-	sig := ci.obj.Type().(*types.Signature)
+	sig := ci.sig
 	if lhs != nil && len(lhs) != sig.Results().Len() {
 		return "", false
 	}
@@ -750,9 +914,9 @@ func (il *inliner) expand(call *ast.CallExpr, ci *calleeInfo, k string, lhs []as
 		}
 	}
 	var results []string
-	if ci.decl.Type.Results != nil {
+	if ci.ftype.Results != nil {
 		i := 0
-		for _, fld := range ci.decl.Type.Results.List {
+		for _, fld := range ci.ftype.Results.List {
 			n := len(fld.Names)
 			if n == 0 {
 				n = 1
@@ -852,7 +1016,7 @@ func (il *inliner) substitute(call *ast.CallExpr, ci *calleeInfo) (string, bool)
 	for _, e := range edits {
 		b = append(b[:e.start], append([]byte(e.text), b[e.end:]...)...)
 	}
-	sig := ci.obj.Type().(*types.Signature)
+	sig := ci.sig
 	rt := sig.Results().At(0).Type()
 	// no conversion when the expression already has the result type (a conversion around `a && b` would also hide
 	// the short-circuit structure from the control-flow graph)
